@@ -11,7 +11,7 @@ def deductive(ctx, repo, prop):
     dsl.verify(ctx, repo, dsl.Registry(), prop, [M + ".log_binomial_pdf", M + ".log_beta_binomial_pdf", M + ".log_binomial_coefficient", M + ".log_beta"], C.h_pdfs,
                expect_covers=["coef", "binomial", "beta-binomial", "beta"])
     dsl.verify(ctx, repo, C.mixture_registry(), prop, [Pc + ".log_pyclone_binomial_pdf", Pc + ".log_pyclone_beta_binomial_pdf"], C.h_mixture, expect_covers=C.MIX_COVERS)
-    dsl.verify(ctx, repo, dsl.Registry(), prop, Pc + ".get_major_cn_prior", C.h_major_cn_prior, expect_covers=["major=1,accepted", "major=3,accepted", "major=1,rejected"])
+    dsl.verify(ctx, repo, dsl.Registry(), prop, Pc + ".get_major_cn_prior", C.h_major_cn_prior, expect_covers=["major=1,accepted", "major=3,accepted", "major=1,rejected", "after-cn-change-genotype"])
     dsl.verify(ctx, repo, dsl.Registry(), prop, Pc + "._compute_liklihood_grid", C.h_likelihood_grid, expect_covers=C.GRID_COVERS)
     dsl.verify(ctx, repo, dsl.Registry(), prop, [Pc + ".DataPoint.to_likelihood_grid", Pc + ".DataPoint.get_ccf_grid"], C.h_to_likelihood_grid, expect_covers=["to_grid.case0", "to_grid.case1", "to_grid.case2"])
     ctx.trust(*C.mixture_registry().assumed)
